@@ -42,7 +42,8 @@ func init() {
 		it("parse", "inStringSlice"),
 		it("parse", "tree.parseAutoescape"),
 		it("parse", "tree.boolAttr"),
-		tbl("parse", "precedence"),
+		// precedence[tok.typ]: a map literal, or a function of the item type in its role
+		{dir: "parse", key: "lookup:precedence", cfg: &gtCfg{alts: []string{"precedenceOf"}, sig: "func(itemType) int"}},
 		tbl("parse", "specialChars"),
 	})
 	gtFamily("72-gotrans-rawtext-quote", []gtItem{
